@@ -17,6 +17,7 @@ package httpcache
 import (
 	"bufio"
 	"bytes"
+	"io"
 	"net/http"
 
 	"github.com/bartventer/httpcache/internal"
@@ -60,4 +61,29 @@ func withConditionalHeaders(req *http.Request, storedHdr http.Header) *http.Requ
 		req = req2
 	}
 	return req
+}
+
+// cloneStoredResponse returns a copy of a stored (in-memory) response that
+// shares no mutable state with it: header and trailer maps are cloned and both
+// responses get their own reader over the body bytes.
+func cloneStoredResponse(stored *http.Response) (*http.Response, error) {
+	var body []byte
+	if stored.Body != nil {
+		var err error
+		body, err = io.ReadAll(stored.Body)
+		_ = stored.Body.Close()
+		if err != nil {
+			return nil, err
+		}
+		stored.Body = io.NopCloser(bytes.NewReader(body))
+	}
+	resp := new(http.Response)
+	*resp = *stored
+	resp.Header = stored.Header.Clone()
+	resp.Trailer = stored.Trailer.Clone()
+	resp.TransferEncoding = append([]string(nil), stored.TransferEncoding...)
+	if stored.Body != nil {
+		resp.Body = io.NopCloser(bytes.NewReader(body))
+	}
+	return resp, nil
 }
